@@ -350,7 +350,7 @@ def units(tier, seed):
     quick = tier == "quick"
     u = [{"name": "shipped", "kind": "shipped", "sA0": False}, {"name": "shipped+sA_0", "kind": "shipped", "sA0": True},
          {"name": "cli-goofit", "kind": "cli", "gen": "goofit"}, {"name": "cli-goofitpy", "kind": "cli", "gen": "goofitpy"}]
-    u += [{"name": f"hyp{k:02d}", "kind": "hyp", "n": 12 if quick else 150} for k in range(12)]
+    u += [{"name": f"hyp{k:02d}", "kind": "hyp", "n": 20 if quick else 200} for k in range(12)]
     return u
 
 
